@@ -5,7 +5,7 @@ CONSTANTS
   InModes = {"const", "count"}
   Convs = {0, 1, 2, 3}
   FlagSet = {0, 1, 2, 3, 4, 5, 6, 7}
-  Splits = {0, 1}
+  Splits = {0, 1, 2}
   Empties = {FALSE, TRUE}
   Fmts = {"z80"}
 INVARIANT NoDesync
